@@ -324,6 +324,46 @@ Proof.
   rewrite Hg. destruct (tget (Tok state) (c_toks x)) as [[s2 m2] |]; do 4 eexists; reflexivity.
 Qed.
 
+(* ------------------------------------------------------------------ a REPORT whose token write fails *)
+Lemma sync_coll_fail_cases : forall cfg now seed x a x' seed' r,
+  sync_coll_fail cfg now seed x a = (x', seed', r) ->
+  (exists r0, r = Some r0 /\ sync_coll cfg now seed x a = (x', seed', r0)) \/
+  (r = None /\ exists state, compute_state now (c_items x) (c_hist x, seed) = ((c_hist x', seed'), state) /\
+                x' = set_hist x (c_hist x')).
+Proof.
+  intros cfg now seed x a x' seed' r H. unfold sync_coll_fail in H.
+  destruct (writes_new_token now seed x a).
+  - right. destruct (compute_state now (c_items x) (c_hist x, seed)) as [[hi s1] state] eqn:E.
+    inversion H; subst; clear H. split; [reflexivity |]. exists state; split; reflexivity.
+  - left. destruct (sync_coll cfg now seed x a) as [[x0 s0] r0] eqn:E. inversion H; subst; clear H.
+    exists r0; split; reflexivity.
+Qed.
+
+Lemma sync_coll_fail_inv : forall cfg now seed x a x' seed' r,
+  sync_coll_fail cfg now seed x a = (x', seed', r) -> inv_c now x ->
+  inv_c now x' /\ c_items x' = c_items x /\ c_exists x' = c_exists x /\ (r = None -> c_toks x' = c_toks x).
+Proof.
+  intros cfg now seed x a x' seed' r H Hinv.
+  destruct (sync_coll_fail_cases _ _ _ _ _ _ _ _ H) as [[r0 [-> Hs]] | [-> [state [E Hx]]]].
+  - destruct (sync_coll_inv _ _ _ _ _ _ _ _ Hs Hinv) as [H1 [H2 H3]].
+    split; [exact H1 |]. split; [exact H2 |]. split; [exact H3 |]. intro Hc; discriminate Hc.
+  - destruct Hinv as [H1 H2 H3 H4].
+    destruct (compute_state_spec _ _ _ _ _ _ _ E H1 H2 H3) as [Hs [Hwf _]].
+    rewrite Hx. cbn. split; [constructor; cbn; assumption |].
+    split; [reflexivity |]. split; [reflexivity |]. intros _; reflexivity.
+Qed.
+
+Lemma sync_coll_fail_settled : forall cfg now seed x a x' seed' r s,
+  sync_cleans_history cfg = false -> settled x s ->
+  sync_coll_fail cfg now seed x a = (x', seed', r) -> settled x' s /\ c_exists x' = c_exists x.
+Proof.
+  intros cfg now seed x a x' seed' r s Hfix Hset H.
+  destruct (sync_coll_fail_cases _ _ _ _ _ _ _ _ H) as [[r0 [-> Hs]] | [-> [state [E Hx]]]].
+  - destruct (sync_coll_settled _ _ _ _ _ _ _ _ _ Hfix Hset Hs) as [H1 [H2 _]]. split; assumption.
+  - rewrite (Hset now seed) in E. inversion E as [[Hh Hsd Hst]]. rewrite Hx. rewrite <- Hh.
+    split; [| reflexivity]. unfold settled; cbn. rewrite <- Hst. exact Hset.
+Qed.
+
 (* ------------------------------------------------------------------ invariant over histories *)
 Definition Inv (st : state) : Prop := forall c, inv_c (st_now st) (getc st c).
 
@@ -337,7 +377,7 @@ Qed.
 
 Lemma step_inv : forall cfg st o, Inv st -> Inv (fst (step cfg st o)).
 Proof.
-  intros cfg st o Hinv. destruct o as [c h e | c h | c h c2 h2 | c l | c | c b | dt | c a | c]; cbn [step].
+  intros cfg st o Hinv. destruct o as [c h e | c h | c h c2 h2 | c l | c | c b | dt | c a | c | c a]; cbn [step].
   - destruct (c_exists (getc st c)); [| exact Hinv].
     destruct (put_coll cfg (st_now st) (st_seed st) (getc st c) h (EText e)) as [x' s'] eqn:E; cbn.
     destruct (put_coll_inv _ _ _ _ _ _ _ _ E (Hinv c)) as [Hx _]. apply (inv_setc st c x' Hinv Hx).
@@ -365,6 +405,9 @@ Proof.
   - destruct (c_exists (getc st c)); [| exact Hinv].
     destruct (sync_coll cfg (st_now st) (st_seed st) (getc st c) ANone) as [[x' s'] r] eqn:E; cbn.
     destruct (sync_coll_inv _ _ _ _ _ _ _ _ E (Hinv c)) as [Hx _]. apply (inv_setc st c x' Hinv Hx).
+  - destruct (c_exists (getc st c)); [| exact Hinv].
+    destruct (sync_coll_fail cfg (st_now st) (st_seed st) (getc st c) a) as [[x' s'] r] eqn:E; cbn.
+    destruct (sync_coll_fail_inv _ _ _ _ _ _ _ _ E (Hinv c)) as [Hx _]. apply (inv_setc st c x' Hinv Hx).
 Qed.
 
 Lemma run_inv : forall cfg ops st, Inv st -> Inv (run cfg st ops).
@@ -475,7 +518,7 @@ Qed.
 (* operations that leave collection c and its cache alone: time, any sync / PROPFIND, changes elsewhere *)
 Definition quiet (c : collid) (o : op) : Prop :=
   match o with
-  | Tick _ | Sync _ _ | PTok _ => True
+  | Tick _ | Sync _ _ | PTok _ | SyncFail _ _ => True
   | Put c' _ _ | Del c' _ | Replace c' _ | DelColl c' | DropCache c' _ => c' <> c
   | Move c1 _ c2 _ => c1 <> c /\ c2 <> c
   end.
@@ -496,7 +539,7 @@ Proof.
     - apply N.eqb_eq in Ec; subst c'.
       destruct (sync_coll_settled _ _ _ _ _ _ _ _ _ Hfix Hset E) as [Hs' [He' _]]. split; [congruence | exact Hs'].
     - split; assumption. }
-  destruct o as [c' h e | c' h | c1 h c2 h2 | c' l | c' | c' b | dt | c' a | c']; cbn [quiet] in Hq; cbn [step].
+  destruct o as [c' h e | c' h | c1 h c2 h2 | c' l | c' | c' b | dt | c' a | c' | c' a]; cbn [quiet] in Hq; cbn [step].
   - destruct (c_exists (getc st c')); [| split; assumption].
     destruct (put_coll cfg (st_now st) (st_seed st) (getc st c') h (EText e)) as [x' s']; cbn.
     unfold settled_at. rewrite getc_set_seed, getc_setc_other by congruence. split; assumption.
@@ -520,6 +563,11 @@ Proof.
   - apply (Hsync c' a).
   - specialize (Hsync c' ANone). cbn zeta in Hsync. destruct (c_exists (getc st c')); [| exact Hsync].
     destruct (sync_coll cfg (st_now st) (st_seed st) (getc st c') ANone) as [[x' s'] r]; exact Hsync.
+  - destruct (c_exists (getc st c')) eqn:Ee; [| split; assumption].
+    destruct (sync_coll_fail cfg (st_now st) (st_seed st) (getc st c') a) as [[x' s'] r] eqn:E; cbn.
+    unfold settled_at. rewrite getc_set_seed, getc_setc. destruct (N.eqb c c') eqn:Ec; [| split; assumption].
+    apply N.eqb_eq in Ec; subst c'.
+    destruct (sync_coll_fail_settled _ _ _ _ _ _ _ _ _ Hfix Hset E) as [Hs' He']. split; [congruence | exact Hs'].
 Qed.
 
 Lemma quiet_run_settled : forall cfg c s ops st,
@@ -607,7 +655,7 @@ Definition no_reset (c : collid) (o : op) : Prop :=
 
 Lemma step_now_mono : forall cfg st o, st_now st <= st_now (fst (step cfg st o)).
 Proof.
-  intros cfg st o. destruct o as [c h e | c h | c h c2 h2 | c l | c | c b | dt | c a | c]; cbn [step].
+  intros cfg st o. destruct o as [c h e | c h | c h c2 h2 | c l | c | c b | dt | c a | c | c a]; cbn [step].
   - destruct (c_exists (getc st c)); [| cbn; lia].
     destruct (put_coll cfg (st_now st) (st_seed st) (getc st c) h (EText e)); cbn; lia.
   - destruct (c_exists (getc st c) && amem h (c_items (getc st c))); [| cbn; lia].
@@ -625,6 +673,8 @@ Proof.
     destruct (sync_coll cfg (st_now st) (st_seed st) (getc st c) a) as [[x' s'] r]; cbn; lia.
   - destruct (c_exists (getc st c)); [| cbn; lia].
     destruct (sync_coll cfg (st_now st) (st_seed st) (getc st c) ANone) as [[x' s'] r]; cbn; lia.
+  - destruct (c_exists (getc st c)); [| cbn; lia].
+    destruct (sync_coll_fail cfg (st_now st) (st_seed st) (getc st c) a) as [[x' s'] r]; cbn; lia.
 Qed.
 
 Lemma run_now_mono : forall cfg ops st, st_now st <= st_now (run cfg st ops).
@@ -655,7 +705,7 @@ Proof.
   assert (Hupd : forall x', c_toks x' = c_toks (getc st c) -> c_exists x' = true ->
                             c_exists x' = true /\ exists s0 m0, tget t (c_toks x') = Some (s0, m0) /\ m <= m0).
   { intros x' Ht He. split; [exact He |]. rewrite Ht. exists s, m'; split; assumption. }
-  destruct o as [c' h e | c' h | c1 h c2 h2 | c' l | c' | c' b | dt | c' a | c']; cbn [no_reset] in Hnr; cbn [step].
+  destruct o as [c' h e | c' h | c1 h c2 h2 | c' l | c' | c' b | dt | c' a | c' | c' a]; cbn [no_reset] in Hnr; cbn [step].
   - destruct (c_exists (getc st c')); [| exact Hsame].
     destruct (put_coll cfg (st_now st) (st_seed st) (getc st c') h (EText e)) as [x' s'] eqn:E; cbn.
     unfold holds_token. rewrite getc_set_seed, getc_setc. destruct (N.eqb c c') eqn:Ec; [| exact Hsame].
@@ -689,6 +739,15 @@ Proof.
   - apply (Hsync c' a).
   - specialize (Hsync c' ANone). cbn zeta in Hsync. destruct (c_exists (getc st c')); [| exact Hsync].
     destruct (sync_coll cfg (st_now st) (st_seed st) (getc st c') ANone) as [[x' s'] r]; exact Hsync.
+  - destruct (c_exists (getc st c')) eqn:Ee; [| exact Hsame].
+    destruct (sync_coll_fail cfg (st_now st) (st_seed st) (getc st c') a) as [[x' s'] r] eqn:E; cbn.
+    unfold holds_token. rewrite getc_set_seed, getc_setc. destruct (N.eqb c c') eqn:Ec; [| exact Hsame].
+    apply N.eqb_eq in Ec; subst c'.
+    destruct (sync_coll_fail_inv _ _ _ _ _ _ _ _ E (Hinv c)) as [_ [_ [He' Ht']]].
+    destruct (sync_coll_fail_cases _ _ _ _ _ _ _ _ E) as [[r0 [-> Hs]] | [-> _]].
+    + destruct (sync_coll_keeps_token _ _ _ _ _ _ _ _ _ _ _ _ Hs (Hinv c) Hg Hm Hage) as [m'' [Hg' Hm'']].
+      split; [congruence | exists s, m''; split; assumption].
+    + split; [congruence |]. rewrite (Ht' eq_refl). exists s, m'; split; assumption.
 Qed.
 
 Lemma no_reset_run_holds : forall cfg c t m ops st,
@@ -748,4 +807,21 @@ Proof.
   fold st2 in Hex2, Hg2. cbn [step]. rewrite Hex2.
   destruct (sync_coll_accepts cfg (st_now st2) (st_seed st2) (getc st2 c) t s2 m2 Hg2) as [x2 [sd2 [t' [d' E]]]].
   rewrite E. do 3 eexists; reflexivity.
+Qed.
+
+(* a REPORT whose token-file write fails leaves items and token files as they were (only the lazy history
+   updates happened); being an ordinary operation of [run], all theorems above hold for histories containing it *)
+Theorem failed_write_harmless : forall cfg ops c a st',
+  let st := run cfg init_state ops in
+  step cfg st (SyncFail c a) = (st', RFail) ->
+  view_of st' c = view_of st c /\ c_toks (getc st' c) = c_toks (getc st c) /\
+  forall c', c' <> c -> getc st' c' = getc st c'.
+Proof.
+  intros cfg ops c a st' st H. cbn [step] in H.
+  destruct (c_exists (getc st c)); [| discriminate H].
+  destruct (sync_coll_fail cfg (st_now st) (st_seed st) (getc st c) a) as [[x' s'] r] eqn:E.
+  destruct r as [r0 |]; [discriminate H |]. inversion H; subst st'; clear H.
+  destruct (sync_coll_fail_inv _ _ _ _ _ _ _ _ E (run_inv cfg ops _ inv_init c)) as [_ [Hi [_ Ht]]].
+  unfold view_of. rewrite getc_set_seed, getc_setc_same. split; [exact Hi |]. split; [exact (Ht eq_refl) |].
+  intros c' Hc. rewrite getc_set_seed. apply getc_setc_other; exact Hc.
 Qed.
